@@ -254,10 +254,12 @@ func (f *File) AddChild(child Box, boxStartPos uint64) {
 		f.Ftyp = box
 	case *MoovBox:
 		f.Moov = box
-		if len(f.Moov.Trak.Mdia.Minf.Stbl.Stts.SampleCount) == 0 {
+		if moovIsForFragmentedFile(box) {
 			f.isFragmented = true
 			f.Init = NewMP4Init()
-			f.Init.AddChild(f.Ftyp)
+			if f.Ftyp != nil {
+				f.Init.AddChild(f.Ftyp)
+			}
 			f.Init.AddChild(f.Moov)
 		}
 	case *SidxBox:
@@ -286,6 +288,10 @@ func (f *File) AddChild(child Box, boxStartPos uint64) {
 		// The case that a segment starts without an emsg is also handled.
 		f.startSegmentIfNeeded(box, boxStartPos)
 		lastSeg := f.LastSegment()
+		if lastSeg == nil { // No segment start has been signaled yet
+			f.AddMediaSegment(&MediaSegment{StartPos: boxStartPos})
+			lastSeg = f.LastSegment()
+		}
 		if len(lastSeg.Fragments) == 0 {
 			lastSeg.AddFragment(&Fragment{StartPos: boxStartPos})
 		}
@@ -297,6 +303,10 @@ func (f *File) AddChild(child Box, boxStartPos uint64) {
 		moof.StartPos = boxStartPos
 		f.startSegmentIfNeeded(moof, boxStartPos)
 		currSeg := f.LastSegment()
+		if currSeg == nil { // No segment start has been signaled yet
+			f.AddMediaSegment(&MediaSegment{StartPos: boxStartPos})
+			currSeg = f.LastSegment()
+		}
 		lastFrag := currSeg.LastFragment()
 		if lastFrag == nil || lastFrag.Moof != nil {
 			currSeg.AddFragment(&Fragment{StartPos: boxStartPos})
@@ -309,13 +319,25 @@ func (f *File) AddChild(child Box, boxStartPos uint64) {
 				f.Mdat = box
 			}
 		} else {
-			currentFragment := f.LastSegment().LastFragment()
-			currentFragment.AddChild(box)
+			if lastSeg := f.LastSegment(); lastSeg != nil && lastSeg.LastFragment() != nil {
+				lastSeg.LastFragment().AddChild(box)
+			}
 		}
 	case *MfraBox:
 		f.Mfra = box
 	}
 	f.Children = append(f.Children, child)
+}
+
+// moovIsForFragmentedFile tells if a moov box belongs to a fragmented file: its (first) track
+// has an empty stts box, or, when the track boxes are incomplete, it has an mvex box.
+func moovIsForFragmentedFile(moov *MoovBox) bool {
+	trak := moov.Trak
+	if trak == nil || trak.Mdia == nil || trak.Mdia.Minf == nil || trak.Mdia.Minf.Stbl == nil ||
+		trak.Mdia.Minf.Stbl.Stts == nil {
+		return moov.Mvex != nil
+	}
+	return len(trak.Mdia.Minf.Stbl.Stts.SampleCount) == 0
 }
 
 // startSegmentIfNeeded starts a new segment if there is none or if position match with sidx of tfra.
@@ -398,6 +420,10 @@ func (f *File) findAndReadMfra(r io.Reader) error {
 	mfra, ok := b.(*MfraBox)
 	if !ok {
 		return fmt.Errorf("expecting mfra box, but got %T", b)
+	}
+	if len(mfra.Tfras) == 0 {
+		_, err = rs.Seek(0, io.SeekStart)
+		return err
 	}
 	f.tfra = mfra.Tfras[0]
 	for i := 1; i < len(mfra.Tfras); i++ {
